@@ -265,7 +265,9 @@ def run(ctx):
         ctx.mc("MC_Varint", MC_VARINT % ("0, 1, 127", 10, 1), name="MC_Varint_q", expect_actions=("Grow", "Flip", "PadMore"))
         ctx.mc("MC_BigInt", MC_BIGINT % 200, name="MC_BigInt_q", expect_actions=("PickA", "PickB", "EncStep", "DecStep"))
     else:
-        ctx.mc("MC_Varint", MC_VARINT % ("0, 1, 64, 127", 10, 3), name="MC_Varint_t", expect_actions=("Grow", "Flip", "PadMore"), timeout=3000)
+        # (four digit values up to 8 digits, three up to the full 10; the product of both was 8 M heavy states: hours on a loaded machine)
+        ctx.mc("MC_Varint", MC_VARINT % ("0, 1, 64, 127", 8, 3), name="MC_Varint_t4", expect_actions=("Grow", "Flip", "PadMore"), timeout=6000)
+        ctx.mc("MC_Varint", MC_VARINT % ("0, 1, 127", 10, 3), name="MC_Varint_t3", expect_actions=("Grow", "Flip", "PadMore"), timeout=6000)
         ctx.mc("MC_BigInt", MC_BIGINT % 600, name="MC_BigInt_t", expect_actions=("PickA", "PickB", "EncStep", "DecStep"), timeout=3000)
     # (2) real code -> events
     rnd = ctx.rnd
